@@ -79,6 +79,22 @@ def run(db, chk):
     helpers = [c for c in cw.calls() if c.is_(r"Store>::(try_set_index_slot|set_slot_to_index|assure_slot_matches_index|maintain_stable_indices)$")]
     chk.floor("helper calls in consolidate_with_disk_state", len(helpers), 2)
     chk.ob("lock-before-slot-mutation", "consolidate_with_disk_state", len(lk) >= 1 and all(any(cw.dominates(l.block, h.block) for l in lk) for h in helpers), "self.write must be locked before any slot-mutating helper", "%s:%d" % (cw.file, cw.line), key="lock-before-slot-mutation")
+    # the generation must change if ANY slot was overwritten in a refresh: the flag that requests it is monotone
+    # (only ever set to true, or or-ed with itself) after its initialisation
+    flags = cw.locals_named("needs_generation_change")
+    chk.floor("needs_generation_change flag", len(flags), 1)
+    nset = 0
+    for bi, si, pl, rv, ln, mc in cw.assigns():
+        if len(pl) == 1 and pl[0] in flags:
+            nset += 1
+            first = not any(cw.dominates(b2, bi) and (b2, s2) != (bi, si) for b2, s2, pl2, rv2, l2, m2 in cw.assigns() if len(pl2) == 1 and pl2[0] in flags)
+            mono = (rv[0] == "use" and rv[1].get("v") == 1) or (rv[0] == "bin" and rv[1] == "BitOr" and any("p" in o and o["p"] == pl for o in (rv[2], rv[3])))
+            init = rv[0] == "use" and rv[1].get("v") == 0 and first
+            chk.ob("generation-flag-monotone", "consolidate_with_disk_state assignment@%d" % ln, mono or init,
+                   "needs_generation_change is overwritten with a computed value: a later index landing in an empty slot would cancel the generation change demanded by an earlier overwritten slot",
+                   "%s:%d" % (cw.file, ln), key="generation-flag-monotone")
+    chk.floor("assignments to needs_generation_change (initialisation + at least one set)", nset, 2)
+    gen_sel = [c for c in comparisons(cw)]
     # re-check before loading an index into its slot
     ln_ = db.one(r"^gix_odb::store_impls::dynamic::load_index::<impl gix_odb::Store>::load_next_index$")
     for g in [ln_] + db.closures_of(ln_):
